@@ -7,7 +7,7 @@ from contracts.lib import *  # noqa
 
 LEVEL = "other"
 MANIFEST_ENTRY = {
-    "text": "Modify (MutableFileVersion._modify_once): for every old contents and every modifier result, what is uploaded is exactly the modifier's result whenever that is bytes different from the old contents -- INCLUDING the empty string -- and nothing is uploaded on the first try when the modifier returns None or the old contents. Segment arithmetic of a publish (Publish.setup_encoding_parameters, MDMF, k=3): for every file length, update offset and amount of new data, num_segments = ceil(length/segsize), the starting segment contains the update offset, and for a partial update the end segment is the one containing the last updated byte (so every segment touched is re-encoded and none beyond). Segment trimming on read (Retrieve._set_segment, segment size 7, all integers and segment bytes symbolic, the file a ghost array): the bytes written to the consumer from segment c are exactly file[max(offset, 7c) : min(offset+length, 7(c+1))], for first, middle, last and first==last segments, so the concatenation over the segments is file[offset:offset+length]. Boundary merge of an in-place update (TransformingUploadable.read): bounded run-time contract -- for every segment size 1..5, update offset 0..12, new data of 0..10 bytes and file length up to 20, the uploadable read segment by segment yields the old bytes before the offset, the new bytes, and the old bytes after them, and nothing else changes.",
+    "text": "Modify (MutableFileVersion._modify_once): for every old contents and every modifier result, what is uploaded is exactly the modifier's result whenever that is bytes different from the old contents -- INCLUDING the empty string -- and nothing is uploaded on the first try when the modifier returns None or the old contents. Segment arithmetic of a publish (Publish.setup_encoding_parameters, MDMF, k=3): for every file length, update offset and amount of new data, num_segments = ceil(length/segsize), the starting segment contains the update offset, and for a partial update the end segment is the one containing the last updated byte (so every segment touched is re-encoded and none beyond). Segment trimming on read (Retrieve._set_segment, segment size 7, all integers and segment bytes symbolic, the file a ghost array): the bytes written to the consumer from segment c are exactly file[max(offset, 7c) : min(offset+length, 7(c+1))], for first, middle, last and first==last segments, so the concatenation over the segments is file[offset:offset+length]; the decoded segment handed to it (Retrieve._decode_blocks, contract shared with C36) is cut to the tail size only for the file's last segment, whichever segment the read ends in. In-place update: MutableFileVersion._do_update_update asks for the segment containing the first updated byte and the segment containing the last updated byte (segment size 9, all integers symbolic), and ServermapUpdater stores exactly that pair as the boundary segments whose old blocks are fetched. Boundary merge of an in-place update (TransformingUploadable.read): bounded run-time contract -- for every segment size 1..5, update offset 0..12, new data of 0..10 bytes and file length up to 20, the uploadable read segment by segment yields the old bytes before the offset, the new bytes, and the old bytes after them, and nothing else changes.",
     "note": "The whole create/overwrite/update/read pipeline (servermap update, Publish push phases, Retrieve decoding, Deferred chains) is not executed end to end; the claim covers the four places where byte ranges are computed or chosen. MutableFileVersion._update's choice between the in-place and whole-file path and _decode_and_decrypt_segments are not under contract.",
     "technique": "contract-based deductive verification (pyvc VCs + z3, ghost file array, Deferred-chain model); TransformingUploadable by bounded exhaustive run-time contract",
 }
@@ -235,5 +235,95 @@ def extra_checks(rep, tier):
                            "native_outcome": "%d of %d cases fail; first: %r" % (len(bad), n, bad[0]), "confirmed_on_real_code": True})
 
 
+S9 = 9
+
+
+class UpdateRange(Spec):
+    """MutableFileVersion._do_update_update: the servermap update is asked to fetch the segment containing the first
+    updated byte and the segment containing the last updated byte (when the update ends before the old end of file)"""
+    file = FN
+    qualname = "MutableFileVersion._do_update_update"
+    cross_check = 0
+    raises = ()
+
+    def inputs(self):
+        return {"offset": IntK(0), "newsize": IntK(0), "filesize": IntK(0)}
+
+    def requires(self, I, a):
+        return Z(a["offset"]) <= Z(a["filesize"])
+
+    def config(self):
+        o = dict(LOG)
+        o["interfaces.IMutableUploadable"] = None
+        del o["interfaces.IMutableUploadable"]
+        return {"overrides": o}
+
+    def run(self, I, a):
+        self._ranges = []
+        data = stub("data", get_size=lambda I_, a_, k_: a["newsize"])
+        from zope.interface import implementer
+        from allmydata.interfaces import IMutableUploadable
+
+        @implementer(IMutableUploadable)
+        class U(object):
+            pass
+        data.cls = U
+        v = SObj(self.module().MutableFileVersion, {"_version": (1, b"r", b"s", S9, 1000, 3, 10, b"p", ())})
+        v.fields["get_size"] = stub("x", f=lambda I_, a_, k_: a["filesize"]).fields["f"]
+        v.fields["is_mutable"] = stub("x", f=lambda I_, a_, k_: True).fields["f"]
+        v.fields["_update_servermap"] = stub("x", f=lambda I_, a_, k_: (self._ranges.append(k_.get("update_range")), "servermap-deferred")[1]).fields["f"]
+        I.call_value(self.target(I), [v, data, a["offset"]], {})
+        return v
+
+    def ensures(self, I, a, out):
+        off, ns, fs = Z(a["offset"]), Z(a["newsize"]), Z(a["filesize"])
+        g = [("one-servermap-update-with-a-range", z3.BoolVal(len(self._ranges) == 1 and isinstance(self._ranges[0], tuple) and len(self._ranges[0]) == 2))]
+        if len(self._ranges) == 1 and isinstance(self._ranges[0], tuple):
+            s, e = Z(self._ranges[0][0]), Z(self._ranges[0][1])
+            last = off + ns - 1
+            g += [("the-start-segment-contains-the-first-updated-byte", z3.And(s * S9 <= off, off < (s + 1) * S9)),
+                  ("the-end-segment-contains-the-last-updated-byte-when-old-data-follows-it", z3.Implies(off + ns < fs, z3.And(e * S9 <= last, last < (e + 1) * S9))),
+                  ("otherwise-no-old-tail-is-needed", z3.Implies(off + ns >= fs, e == s))]
+        return g
+
+    def canary(self, I, a, out):
+        return [("canary", Z(self._ranges[0][1]) == Z(self._ranges[0][0]))]
+
+
+class UpdaterRange(Spec):
+    """ServermapUpdater.__init__: an update range (start, end) makes the updater fetch blocks of exactly those two segments"""
+    file = "allmydata/mutable/servermap.py"
+    qualname = "ServermapUpdater.__init__"
+    cross_check = 0
+    raises = ()
+
+    def inputs(self):
+        return {"s": IntK(0), "e": IntK(0)}
+
+    def config(self):
+        o = dict(LOG)
+        o.update({"servermap.si_b2a": lambda I, a, kw: b"abcdefgh", "uri.si_b2a": lambda I, a, kw: b"abcdefgh", "server.si_b2a": lambda I, a, kw: b"abcdefgh",
+                  "servermap.UpdateStatus": lambda I, a, kw: stub("status", set_storage_index=noop, set_progress=noop, set_mode=noop)})
+        return {"overrides": o}
+
+    def run(self, I, a):
+        from allmydata.mutable.common import MODE_WRITE
+        M = self.module()
+        node = stub("node", get_storage_index=lambda I_, a_, k_: b"s" * 16, get_privkey=lambda I_, a_, k_: "priv")
+        u = SObj(M.ServermapUpdater, {})
+        I.call_value(self.target(I), [u, node, "broker", "monitor", "servermap"], {"mode": MODE_WRITE, "update_range": (a["s"], a["e"])})
+        return u
+
+    def ensures(self, I, a, out):
+        u = out.value
+        return [("update-data-will-be-fetched", z3.BoolVal(u.fields.get("fetch_update_data") is True)),
+                ("first-boundary-segment-is-the-start-of-the-range", Z(u.fields["start_segment"]) == Z(a["s"])),
+                ("last-boundary-segment-is-the-end-of-the-range", Z(u.fields["end_segment"]) == Z(a["e"]))]
+
+    def canary(self, I, a, out):
+        return [("canary", Z(out.value.fields["end_segment"]) == Z(a["s"]))]
+
+
 def contracts(tier):
-    return [ModifyOnce(), PublishSegments(), SetSegment()]
+    from contracts import C36
+    return [ModifyOnce(), PublishSegments(), SetSegment(), UpdateRange(), UpdaterRange(), C36.MutableDecodeBlocks()]
